@@ -1159,6 +1159,80 @@ def r5(ctx):
         ctx.check(got in want, key, f"operator `{op}` renders as `{got}`, expected one of {want}", got, loc)
 
 
+# ---------------------------------------------------------------------- C01-R6: operands are never mutated
+# Methods of the expression-building protocol: they return the (possibly wrapped / rewritten) expression and
+# are called on operands that other trees still reference.
+BUILD_PROTOCOL = ("self_group", "_negate", "_negate_in_binary", "operate", "reverse_operate",
+                  "_flattened_operator_clauses", "__invert__", "__neg__")
+# {function key: reason} -- constructors that mutate a parameter by contract
+R6_EXCEPTIONS: Dict[str, str] = {}
+
+
+@R.rule("C01-R6", floor=60, template="T-FRESH",
+        desc="associative flattening and every other operator-expression constructor (operator implementations of "
+             "default_comparator, classmethod constructors and the self_group/_negate/operate protocol of the "
+             "element classes) build NEW nodes: no structural attribute (one named in a _traverse_internals table) "
+             "of a parameter-reachable expression is rebound, augmented or mutated in place, directly, through an "
+             "alias, through an in-place mutator method or through a helper")
+def r6(ctx):
+    from ._helpers_str2_b import OperandMutation, traversed_attrs
+    ix = ctx.index
+    ce = ix.cls(f"{EL}::ClauseElement")
+    fam = [c for c in ix.all_classes()
+           if c.module.relpath.startswith("sql/") and (c is ce or ix.is_subclass(c, ce))]
+    ctx.require(len(fam) >= 100, f"only {len(fam)} ClauseElement classes under sql/")
+    structural = traversed_attrs(fam)
+    ctx.require(len(structural) >= 60, f"only {len(structural)} attribute names in the _traverse_internals tables")
+    om = OperandMutation(ctx, structural, fam)
+    om.compute_self_mutators()
+    ctx.require(len(om.self_mutators) >= 2, "no in-place mutator method found in the element family (ClauseList.append, "
+                                            "ExpressionClauseList._append_inplace ... expected)")
+    ctx.note("in-place mutators of the element family: " + ", ".join(f"{n} ({k})" for n, k in sorted(om.self_mutators.items())))
+    targets = []
+    dcm = ix.module(DC)
+    for fi in dcm.functions.values():
+        if fi.cls is None and not fi.type_only:
+            targets.append(fi)
+    n_ctor = n_proto = 0
+    for c in fam:
+        if c.module.relpath != EL:
+            continue
+        for m in c.methods.values():
+            if m.type_only or m.is_overload:
+                continue
+            decs = {d.rsplit(".", 1)[-1] for d in m.decorators}
+            if decs & {"classmethod", "staticmethod"}:
+                targets.append(m)
+                n_ctor += 1
+            elif m.name in BUILD_PROTOCOL:
+                targets.append(m)
+                n_proto += 1
+    ctx.require(n_ctor >= 10 and n_proto >= 20 and len(dcm.functions) >= 15,
+                f"constructor family shrank: {len(dcm.functions)} operator implementations, {n_ctor} classmethod "
+                f"constructors, {n_proto} protocol methods")
+    for f in sorted(targets, key=lambda x: x.key):
+        ctx.functions_analysed.add(f.key)
+        key = f"{f.key}:operands-not-mutated"
+        if f.key in R6_EXCEPTIONS:
+            ctx.ok(key, "exception: " + R6_EXCEPTIONS[f.key], nontrivial=False)
+            continue
+        # a mutation that happens inside another member of the family is reported there, once
+        tkeys = {t.key for t in targets}
+        found = [x for x in om.sinks(f) if not (x[1].startswith("via-callee:") and x[1].split(":", 1)[1] in tkeys)]
+        if found:
+            root, kind, desc, ln = found[0]
+            ctx.violation(
+                key,
+                f"{f.qualname} {desc}" + (f" (+{len(found) - 1} more)" if len(found) > 1 else "") +
+                f": the operand `{root}` is still referenced by the caller and by every expression built from it "
+                f"earlier, so their rendered SQL changes behind their back (an expression constructor must build a "
+                f"new node from the operands' members)",
+                f"{f.module.path}:{ln}", [f"line {l}: {d}" for _, _, d, l in found[:5]])
+        else:
+            ctx.ok(key, "no structural state of a parameter-reachable object is stored to or mutated in place",
+                   nontrivial=False)
+
+
 # ---------------------------------------------------------------------- self-test battery
 R.mutant("precedence-concat-above-add", OPS, sub("    concat_op: 5,\n", "    concat_op: 9,\n"), "C01-R1")
 R.mutant("precedence-and-below-or", OPS, sub("    and_: 3,\n", "    and_: 1,\n"), "C01-R1")
@@ -1475,3 +1549,67 @@ R.mutant("binary-init-grouped-locals-right-bare", EL, sub(
 R.mutant("benign-construct-for-list-early-return-arm", EL, sub(
     "        if group:\n            self.clauses = tuple(\n                c.self_group(against=operator) for c in clauses\n            )\n        else:\n            self.clauses = clauses\n",
     "        members = clauses\n        if group:\n            members = tuple(\n                c.self_group(against=operator) for c in clauses\n            )\n        self.clauses = members\n"), None)
+
+# ---- round-2 strengthening (str2-b): seeds C01/3 (UnaryExpression.self_group early `return self`; caught by R4
+# before the round) and C01/4 (associative "fast path" that extends the left operand in place; new rule R6)
+_UN_SG = ("        if self.operator and operators.is_precedent(self.operator, against):\n            return Grouping(self)\n"
+          "        else:\n            return self")
+R.mutant("seed3-unary-self-group-skips-parens-over-grouped-operand", EL, sub(
+    _UN_SG,
+    "        if self.operator and operators.is_precedent(self.operator, against):\n"
+    "            if isinstance(self.element, Grouping) and against is not self.operator:\n                return self\n"
+    "            return Grouping(self)\n        else:\n            return self"), "C01-R4")
+R.mutant("unary-self-group-modifier-only-guard-on-precedent-path", EL, sub(
+    _UN_SG,
+    "        already_delimited = self.modifier is None and isinstance(self.element, Grouping)\n"
+    "        if already_delimited:\n            return self\n"
+    "        if self.operator and operators.is_precedent(self.operator, against):\n            return Grouping(self)\n"
+    "        return self"), "C01-R4")
+R.mutant("benign-unary-self-group-modifier-form-returns-early", EL, sub(
+    _UN_SG,
+    "        if self.operator is None:\n            # modifier form (x DESC, x NULLS FIRST): never parenthesised\n            return self\n"
+    "        needs = operators.is_precedent(self.operator, against)\n"
+    "        return Grouping(self) if needs else self"), None)
+R.mutant("benign-unary-self-group-grouped-operand-still-consults-precedence", EL, sub(
+    _UN_SG,
+    "        operand_grouped = isinstance(self.element, Grouping)\n"
+    "        if self.operator and operators.is_precedent(self.operator, against):\n"
+    "            wrapped = Grouping(self)\n            return wrapped\n"
+    "        elif operand_grouped:\n            return self\n        else:\n            return self"), None)
+_CFO_HEAD = ("            assert (\n                negate is None\n            ), f\"negate not supported for associative operator {op}\"\n\n")
+R.mutant("seed4-associative-fast-path-appends-to-left-operand", EL, sub(_CFO_HEAD, _CFO_HEAD + (
+    "            if (\n                isinstance(left, ExpressionClauseList)\n                and left.operator is op\n"
+    "                and left.group\n                and getattr(right, \"operator\", None) is not op\n"
+    "                and type_._compare_type_affinity(left.type)\n            ):\n"
+    "                left._append_inplace(right.self_group(against=op))\n                return left\n\n")), "C01-R6")
+R.mutant("associative-fast-path-augments-left-clauses", EL, sub(_CFO_HEAD, _CFO_HEAD + (
+    "            if isinstance(left, ExpressionClauseList) and left.operator is op:\n"
+    "                left.clauses += (right.self_group(against=op),)\n                return left\n\n")), "C01-R6")
+R.mutant("associative-fast-path-mutates-through-alias-and-helper", EL, chain(
+    sub(_CFO_HEAD, _CFO_HEAD + (
+        "            chain_head = left\n"
+        "            if isinstance(chain_head, ExpressionClauseList) and chain_head.operator is op:\n"
+        "                return cls._extend_chain(chain_head, right.self_group(against=op))\n\n")),
+    sub("    @classmethod\n    def _construct_for_op(\n",
+        "    @staticmethod\n    def _extend_chain(existing, member):\n        existing._append_inplace(member)\n        return existing\n\n"
+        "    @classmethod\n    def _construct_for_op(\n")), "C01-R6")
+R.mutant("binary-negate-swaps-operators-in-place", EL, sub(_NEG, (
+    "        if self.negate is not None:\n            self.operator, self.negate = self.negate, self.operator\n"
+    "            return self\n        else:\n            return self.self_group()._negate()\n")), "C01-R6")
+R.mutant("comparator-impl-rebinds-operand-type", DC, sub(
+    "    if result_type is None:\n        left_type = expr.type\n",
+    "    if result_type is None:\n        expr.type = type_api.to_instance(expr.type)\n        left_type = expr.type\n"), "C01-R6")
+R.mutant("benign-associative-fast-path-builds-new-list", EL, sub(_CFO_HEAD, _CFO_HEAD + (
+    "            if (\n                isinstance(left, ExpressionClauseList)\n                and left.operator is op\n"
+    "                and getattr(right, \"operator\", None) is not op\n"
+    "                and type_._compare_type_affinity(left.type)\n            ):\n"
+    "                return ExpressionClauseList._construct_for_list(\n                    op, type_, *left.clauses, right\n                )\n\n")), None)
+R.mutant("benign-associative-fast-path-appends-to-a-clone", EL, sub(_CFO_HEAD, _CFO_HEAD + (
+    "            if (\n                isinstance(left, ExpressionClauseList)\n                and left.operator is op\n"
+    "                and left.group\n                and getattr(right, \"operator\", None) is not op\n"
+    "                and type_._compare_type_affinity(left.type)\n            ):\n"
+    "                extended = left._clone()\n                extended._append_inplace(right.self_group(against=op))\n"
+    "                return extended\n\n")), None)
+R.mutant("benign-construct-for-list-extends-its-new-node", EL, sub(
+    "        self.operator = operator\n        self.type = type_\n        for c in clauses:\n            if c._propagate_attrs:",
+    "        self.operator = operator\n        self.clauses += ()\n        self.type = type_\n        for c in clauses:\n            if c._propagate_attrs:"), None)
